@@ -170,7 +170,8 @@ PROPS["C16"]["groups"].append({
 PROPS["C19"] = {
     "functions": ["syscall::setsockopt (SetsockoptSyscallFacade -> NioSetsockoptSyscall -> Raw)", "syscall::unix::recv_time_limit",
                   "syscall::unix::send_time_limit", "syscall::unix::get_time_limit", "syscall::close (CloseSyscallFacade -> NioCloseSyscall -> Raw)"],
-    "bounds": "ONE operation from {set SO_RCVTIMEO, set SO_SNDTIMEO, query receive limit, query send limit, close + reuse of the number} "
+    "bounds": "ONE operation from {set SO_RCVTIMEO, set SO_SNDTIMEO, query receive limit, query send limit, close + reuse of the number, a close "
+              "that the kernel reports as -1/EINTR although it released the descriptor + reuse} "
               "from an ARBITRARY valid state of the limit cache over 2 descriptor numbers (inductive step: histories of any length): "
               "the socket's four option values are arbitrary valid timevals (any tv_sec >= 0, 0 <= tv_usec < 10^6), each of the four cache "
               "entries is independently absent or coherent, the timeval passed to setsockopt is ANY pair of 64-bit fields (negative and "
@@ -223,9 +224,12 @@ PROPS["C20"] = {
 PROPS["C21"] = {
     "functions": ["Selector::{add_read_event,add_write_event,del_event,del_read_event,del_write_event,select,register,reregister,deregister}",
                   "mio_adapter::Poller::{do_register,do_reregister,do_deregister}"],
-    "bounds": "every history of 3 (quick) / 4 (thorough) operations from {wait read, wait write, drop both, drop read, drop write, close+reuse} "
-              "over 2 descriptor numbers with symbolic tokens on one poller; a re-wait after a consumed event; two pollers sharing the record sets.",
-    "outside": "the real epoll (edge-trigger re-arm), OS failures other than EEXIST/ENOENT, shutdown() (same del_* calls).",
+    "bounds": "ONE operation from {wait read, wait write, drop both, drop read, drop write, close+reuse, hooked close, readiness event delivered} on a "
+              "descriptor whose outstanding interests are concrete per harness (none/read/write/both: 32 instances) while the waiting-token records, "
+              "all tokens and a bystander descriptor's whole state are arbitrary (inductive step: histories of any length); a wait whose OS "
+              "registration is refused (from none and from the opposite interest); a re-wait after a consumed event; two pollers sharing the "
+              "record sets; thorough: every history of 3 / 4 operations over 2 descriptor numbers.",
+    "outside": "the real epoll (edge-trigger re-arm), an OS refusal of reregister/deregister in the middle of a drop, shutdown() (same del_* calls).",
     "assumptions": _SEL_ASSUME,
     "groups": [
         {
@@ -258,10 +262,11 @@ PROPS["C25"] = {
     ],
 }
 PROPS["C26"] = {
-    "functions": ["common::beans::BeanFactory::{get_instance,get_or_default,init_bean,get_bean}"],
-    "bounds": "2 threads, each one first lookup of the same name; thread B's whole lookup is placed at one symbolic scheduling point "
+    "functions": ["common::beans::BeanFactory::{get_instance,get_or_default,get_mut_or_default,init_bean,get_bean}"],
+    "bounds": "2 threads, each one first lookup of the same name (both through get_or_default, or both through get_mut_or_default); thread B's whole lookup is placed at one symbolic scheduling point "
               "inside thread A's lookup (every dashmap operation and every atomic operation is a scheduling point) or after it; SeqCst.",
-    "outside": "non-nested interleavings (B pre-empted in turn), 3+ threads, weak-memory effects, get_mut_or_default.",
+    "outside": "non-nested interleavings (B pre-empted in turn), 3+ threads, weak-memory effects, init_bean racing with a lookup of the same name "
+               "(init_bean does not hand out an instance; the runtime only calls it with per-event-loop names).",
     "assumptions": ["E5: std atomics in beans.rs replaced by yielding Cell-backed atomics", "dashmap model; one pre-emption (DESIGN 2.7)"],
     "groups": [
         {
@@ -270,7 +275,8 @@ PROPS["C26"] = {
             "harnesses": ["c26_first_lookups_preempt_at_0", "c26_first_lookups_preempt_at_1", "c26_first_lookups_preempt_at_2",
                           "c26_first_lookups_preempt_at_3", "c26_first_lookups_preempt_at_4", "c26_first_lookups_preempt_at_5",
                           "c26_first_lookups_preempt_at_6", "c26_first_lookups_preempt_at_7", "c26_first_lookups_one_after_the_other",
-                          "c26_sequential_lookups", "c26_names_that_differ_give_different_instances"],
+                          "c26_sequential_lookups", "c26_names_that_differ_give_different_instances"]
+                         + [f"c26_first_mut_lookups_preempt_at_{k}" for k in range(8)] + ["c26_first_mut_lookups_one_after_the_other"],
             "timeout": 600,
         },
     ],
